@@ -107,7 +107,7 @@ def run_symex(k, tier, kdir, seed, res):
     t0 = time.time()
     nq = 0
     for e, eng in engs:
-        symex.discharge(eng, eng.obls, tmo, axioms=eng.axioms, jobs=k.get('jobs', 8))
+        symex.discharge(eng, eng.obls, tmo, axioms=eng.axioms, jobs=k.get('jobs', int(os.environ.get('VF_SOLVER_JOBS', '6'))))
         nq += getattr(eng, 'queries_discharged', 0)
         if not eng.witness or not any(eng.feasible(w) for w in eng.witness):
             witness_ok = False
